@@ -15,12 +15,23 @@
       invariant, never if it is not live, and exactly once if every table is listed by its
       archetype (an invariant clause that is not yet carried by [St]; shown necessary);
     - callbacks and event dispatch never touch the storage (StorageA: fire_*_storage).
-    Not covered by theorems: batch operations (all removal callbacks before, all others after the
-    whole batch), relation events, lock state inside callbacks — `observers` correspondence stream:
-    every callback's [locked, alive, occurrence count, snapshot] is compared with the model, plus the
-    oracle "alive and seen exactly once" on the implementation's own callback log. *)
+    - BATCH OPERATIONS (BatchView.v; relation-free tier, passive observers = observers that only
+      observe): for RemoveEntities, Add/Remove/ExchangeBatch and NewBatch the log produced by the
+      operation has the shape the property demands: all OnRemoveEntity / OnRemoveComponents entries
+      report the PRE-state content of their entity ([bv_reports s]) and precede every table move;
+      the batch callback runs once per entity; all OnAddComponents / OnCreateEntity entries come
+      after ALL tables were moved and all batch callbacks ran and report the POST-state content
+      ([bv_reports s'], including the values the callbacks wrote); every entry reports locked = 1,
+      alive = 1, occurrence count = 1; the (observer, entity) pairs reported are exactly the
+      selected entities matched by each observer's filter, each once; the world is unlocked at the
+      end and the final state is the one the C06 theorems describe. With observers that unregister
+      themselves the exactness of the pair set is refuted ([C09_active_observers_refuted]); the
+      shape and content of every entry still holds ([C09_*_partial]).
+    Not covered by theorems: relation events in relation worlds, SetRelationsBatch - `observers`
+    correspondence stream: every callback's [locked, alive, occurrence count, snapshot] is compared
+    with the model, plus the oracle "alive and seen exactly once" on the implementation's own log. *)
 From Ark Require Import Model.Base Model.Mask Model.Pool Model.Util Model.World Model.Run.
-From Ark Require Import Proofs.WF Proofs.StorageA Proofs.StorageBDefs Proofs.ViewProofs Properties.Common.
+From Ark Require Import Proofs.WF Proofs.StorageA Proofs.StorageBDefs Proofs.ViewProofs Proofs.BatchView Properties.Common.
 
 Theorem C09_callback_logs_state_at_callback_time : forall oi e s u s',
   run_callback oi e s = Ok u s' -> w_log s' = w_log s ++ [v_cb_entry oi e s].
@@ -76,7 +87,20 @@ Example C09_remove_callback_entry :
    2; 1; 1; 1; 6; 0; 0; 1; 1; 0; 0; 0; 0; 2; 0]%Z.
 Proof. vm_compute. reflexivity. Qed.
 
+(** ** Batch operations with observers: see the header; the statements are those of BatchView.v. *)
+Definition C09_remove_entities_batch := remove_entities_view.
+Definition C09_exchange_batch := exchange_batch_view.
+Definition C09_new_batch := new_batch_view.
+Definition C09_remove_entities_batch_partial := remove_entities_view_partial.
+Definition C09_exchange_batch_partial := exchange_batch_view_partial.
+Definition C09_new_batch_partial := new_batch_view_partial.
+Definition C09_active_observers_refuted := remove_entities_view_active_refuted.
+Definition C09_batch_examples := (batch_view_nonvacuous, bv_world_remove_entities, remove_entities_view_example,
+  exchange_batch_view_example, new_batch_view_example).
+
 Definition C09_all := (C09_callback_logs_state_at_callback_time, C09_remove_is_prefix_events_move,
   C09_removal_events_see_old_content, C09_add_events_after_change, C09_seen_at_most_once, C09_dead_never_seen,
-  C09_live_seen_exactly_once_partial).
+  C09_live_seen_exactly_once_partial, C09_remove_entities_batch, C09_exchange_batch, C09_new_batch,
+  C09_remove_entities_batch_partial, C09_exchange_batch_partial, C09_new_batch_partial,
+  C09_active_observers_refuted, C09_batch_examples).
 Print Assumptions C09_all.
